@@ -42,7 +42,7 @@ from .client import Authenticated
 from .constants import MAX_INPUT_SIZE, SPECIAL_USE_ATTRS
 from .db import Database
 from .exceptions import MailboxInconsistency
-from .mbox import Mailbox, NoSuchMailbox
+from .mbox import Mailbox, NoSuchMailbox, mbox_name_is_inside
 from .mh import MH
 from .parse import BadCommand, IMAPClientCommand
 from .trace import toggle_trace, trace
@@ -981,8 +981,16 @@ class IMAPUserServer:
         if name.lower() == "inbox":
             name = "inbox"
 
+        # A name that leads outside of the user's mail directory (an absolute
+        # path or one using `..`) is not the name of one of our mailboxes
+        # whatever may be at that place in the file system.
+        #
         # if not self.folder_exists(name):
-        if not name.strip() or not self.folder_exists(name):
+        if (
+            not name.strip()
+            or not mbox_name_is_inside(name)
+            or not self.folder_exists(name)
+        ):
             raise NoSuchMailbox(f"No such mailbox: '{name}'")
 
         # If the mailbox is active we can return it immediately.
